@@ -293,6 +293,9 @@ var c07Fixed = []string{
 	"print 1 ! = 2",
 	"print \"a\\\"b\\\\\" + \"\\u00e9\\x41\\101\"",
 	"print 12345678 + 0x1F2e3d - 1.5e+10 * 017",
+	"print \"" + strings.Repeat("a", 70) + "\\\"b\\\\c\\nd\\te\\x41f\\u00e9g\\101h\\U0001F600\" + \"" + strings.Repeat("é", 40) + "\\\"\"",
+	"def b \"" + strings.Repeat("n", 64) + "\\\\\" { f = \"" + strings.Repeat(" ", 66) + "\\\"\" }",
+	"print \"" + strings.Repeat("x", 130) + "\\",
 	"print \"unterminated",
 	"print \"unterminated\nprint 2",
 	"print 1.",
